@@ -30,8 +30,18 @@ def make_algebra(cfg):
         kw['signature'] = list(cfg['signature'])
         for k in ('p', 'q', 'r'):
             kw.pop(k, None)
-    if cfg.get('wrapper'):
-        kw['wrapper'] = (lambda f: f) if cfg['wrapper'] == 'identity' else None
+    if cfg.get('wrapper') == 'identity':
+        kw['wrapper'] = lambda f: f
+    elif cfg.get('wrapper') == 'wraps':
+        # a semantics-preserving decorator that returns a *new* callable (what numba.njit or functools.wraps-style decorators do)
+        import functools
+
+        def deco(f):
+            @functools.wraps(f)
+            def inner(*a, **k):
+                return f(*a, **k)
+            return inner
+        kw['wrapper'] = deco
     if cfg.get('symbolcls') == 'sympy':
         import sympy
         kw['codegen_symbolcls'] = sympy.Symbol
